@@ -136,3 +136,25 @@ func OnlyPanicsFrom(b *ssa.BasicBlock) bool {
 	}
 	return true
 }
+
+// OnlyErrorReturnsFrom reports whether every return reachable from block b returns a non-constant-nil error as its last
+// result (no success return is reachable).
+func OnlyErrorReturnsFrom(b *ssa.BasicBlock) bool {
+	seen := map[*ssa.BasicBlock]bool{}
+	stack := []*ssa.BasicBlock{b}
+	for len(stack) > 0 {
+		x := stack[len(stack)-1]
+		stack = stack[:len(stack)-1]
+		if seen[x] {
+			continue
+		}
+		seen[x] = true
+		if len(x.Instrs) > 0 {
+			if rt, ok := x.Instrs[len(x.Instrs)-1].(*ssa.Return); ok && ReturnsConstNilError(rt) {
+				return false
+			}
+		}
+		stack = append(stack, x.Succs...)
+	}
+	return true
+}
